@@ -217,6 +217,71 @@ def outcome(rec, retry):
     return "reissued" if rec["issues"] > 1 else "wrong_result"
 
 
+def strace_crosscheck(chk, bindir, wrappers, sysinj_results, tier):
+    """Independent instrument: the same (wrapper, forced answer) under strace's own injection
+    (-e inject=NR:retval=V / error=E).  The decoded result and the number of issues must be the
+    ones recorded under tools/sysinj; a disagreement is a fault of the machinery (exit 2)."""
+    import shutil
+    import subprocess
+    if not shutil.which("strace"):
+        chk.extra["strace_crosscheck"] = "strace not installed"
+        return
+    values = [-16, 16, -4096] if tier != "quick" else [-2]
+    todo = [w for k, w in enumerate(wrappers) if tier != "quick" or k % 9 == 0]
+    exe = os.path.join(bindir, "sysw")
+    compared = 0
+    for w in todo:
+        for val in values:
+            if w["retry"] == "ebusy" and val == -16:
+                val = -2
+            is_err = -4095 <= val <= -1
+            if (w["pass"] and not is_err) or (w["kind"] == "noreturn" and not is_err):
+                continue
+            ref = sysinj_results.get((w["w"], val))
+            if ref is None:
+                continue
+            plan = os.path.join(chk.work, "strace_plan.ndjson")
+            core.write_ndjson(plan, [{"i": 0, "w": w["w"], "raws": [str(val)], "mode": "s"}])
+            log = os.path.join(chk.work, "strace.log")
+            # 1. how many calls of that system call precede the window (libc start-up, plan reading)
+            subprocess.run(["strace", "-s", "400", "-o", log, "-e", "trace=%s,write" % w["nr"], exe, "run", plan],
+                           stdout=subprocess.PIPE, stderr=subprocess.PIPE, timeout=60)
+            before = 0
+            for line in open(log, errors="replace"):
+                if line.startswith("write(-1, \"MARK:"):
+                    break
+                if line.startswith(w["nr"] + "("):
+                    before += 1
+            if w["nr"] == "write":
+                before += 1   # the begin marker is a write itself
+            if w["nr"] == "execve":
+                before -= 1   # the exec of the driver itself is logged but not counted by strace's `when`
+            inj = ("error=%d" % -val) if is_err else ("retval=%d" % (val & ((1 << 64) - 1)))
+            p = subprocess.run(["strace", "-s", "400", "-o", log, "-e", "trace=%s,write" % w["nr"],
+                                "-e", "inject=%s:%s:when=%d" % (w["nr"], inj, before + 1), exe, "run", plan],
+                               stdout=subprocess.PIPE, stderr=subprocess.PIPE, text=True, timeout=60)
+            got = None
+            for line in p.stdout.splitlines():
+                try:
+                    got = json.loads(line)
+                except ValueError:
+                    pass
+            issues, inwin = 0, False
+            for line in open(log, errors="replace"):
+                if line.startswith("write(-1, \"MARK:"):
+                    inwin = ":begin:" in line
+                elif inwin and line.startswith(w["nr"] + "("):
+                    issues += 1
+            if got is None:
+                raise core.ToolError("strace cross-check: no result for %s %d: %s" % (w["w"], val, p.stderr[-500:]))
+            a = result_rec(got)
+            if a != ref["res"] or issues != ref["issues"]:
+                raise core.ToolError("instruments disagree on %s with answer %d: strace %s (%d issues), sysinj %s (%d issues)" % (
+                    w["w"], val, a, issues, ref["res"], ref["issues"]))
+            compared += 1
+    chk.extra["strace_crosscheck"] = {"compared": compared, "disagreements": 0}
+
+
 def prepare(chk):
     SJ.build_tracer()
     bindir = core.cargo_build(bins=["sysw"])
@@ -311,6 +376,11 @@ def run(tier):
                 {"item": items[k], "record": rec})
         if k % 1499 == 0:
             chk.sample({"w": rec["w"], "forced": [to_int(r) for r in rec["raws"]], "issues": rec["issues"], "result": rec["res"]})
+    single = {}
+    for rec in recs:
+        if len(rec["raws"]) == 1 and rec["ended"] == "returned":
+            single[(rec["w"], to_int(rec["raws"][0]))] = rec
+    strace_crosscheck(chk, bindir, wrappers, single, tier)
     if disagreements:
         raise core.ToolError("%d records judged differently by SyscallJudge and by the SyscallGen vectors" % disagreements)
     chk.nontrivial = len(nontrivial)
